@@ -17,6 +17,15 @@ CLAIMED = {
  "C06": ("reaching-condition truth tables over serial orderings + dominance/path rules + call-graph who-may (go/ssa)",
          "Decides serialization (one callback goroutine, no spawning, handlers called nowhere else), FIFO consumption by a single consumer, the exact skip predicate (event.serial > handle.minSerial) and catch-up predicate (cfg != nil && registered serial < last announced) as exhaustive truth tables over all orderings, the last-announced bookkeeping, handler argument provenance (old = predecessor loaded before the install), in-order handle-list rebuild, drain-before-exit, and the unregister handshake (true only after the loop's acknowledgement).",
          "Not decided: behaviour after the documented drop-on-overflow; scheduling. Trusted: Go channel FIFO semantics, go/ssa lowering."),
+ "C07": ("channel-capacity + path (must-answer / at-most-once) + dominance + select-shape rules (go/ssa)",
+         "Decides that the reply channel has constant capacity >= 1 and receives exactly one answer on every path of the re-stack when non-nil (the rejection error on reject exits, nil only after the store), that BlockingReportNewValue's submission and wait are selects containing <-ctx.Done() of its own context whose arms return failures, that nil is returned only after a nil answer, and that Blank.SetSource assigns the inner source only after Value succeeded, bounds the report by its own context, returns nil only after the report did and starts the inner Watch afterwards.",
+         "Not decided: scheduling latency; that a later report supersedes (history-level). Trusted: buffered-channel semantics."),
+ "C08": ("select-shape + who-may (close ownership, lock-freedom) + exhaustiveness + path rules over go/ssa and the static call graph",
+         "Decides structural necessary conditions that hold for all interleavings: the monitor only ever does non-blocking sends on the callback queue; every channel operation on caller goroutines is bounded by the call's own context; no channel that is closed is sent to from another goroutine than the closer's (and the callback queue is never closed); sealed event switches are exhaustive; make() sizes cannot be negative; reply channels have room and get exactly one answer; both goroutine roots have an exit for every blocking operation (context arm / deferred close of the shutdown channel that the callback loop selects on); the callback loop exits only drained; goroutine roots are lock-free; Lock/defer-Unlock pairing; Blank bounds its blocking calls by the caller's context.",
+         "Not a proof of deadlock freedom or liveness: no scheduler model is explored (different technique family). User callbacks may block by contract. Trusted: fsnotify, runtime."),
+ "C09": ("exhaustive truth tables of extracted guard formulas (delay x suppress x verified x error) + who-may-call + def-use flow (go/ssa)",
+         "Decides the whole delayed-verification state machine structurally: the four Verify call sites and the exact guard of each; the skip flag's only origin (DelayInitialVerification) and only transition (!helper, called only while skipping; helper true iff not verifiable or Verify()==nil); that every success reply/return carries the (config, serial) of the one ViewVersion call that was verified and every failure a nil config; globalCBsSuppressed == skipVerify && option; source errors delivered iff !(skipVerify && option); the callback loop filters nothing else.",
+         "Not decided: what user Verify does; the 'indeterminate on context expiry' case the API documents. Trusted: go/ssa lowering."),
 }
 
 NOT_YET = {}
